@@ -312,6 +312,39 @@ func registerReflect() {
 	tm("NumMethod", func(i *Interp, t types.Type, a []value) value {
 		return i.mkInt(int64(len(i.exportedMethods(t))))
 	})
+	methodStruct := func(i *Interp, t types.Type, sel *types.Selection, idx int) value {
+		ms := i.zero(i.lookupType("reflect", "Method")).(structure)
+		fn := i.P.Prog.MethodValue(sel)
+		sig := sel.Type().(*types.Signature)
+		var params []*types.Var
+		params = append(params, types.NewVar(0, nil, "recv", t))
+		for k := 0; k < sig.Params().Len(); k++ {
+			params = append(params, sig.Params().At(k))
+		}
+		full := types.NewSignatureType(nil, nil, nil, types.NewTuple(params...), sig.Results(), sig.Variadic())
+		ms[0] = Str{s: sel.Obj().Name()}
+		ms[2] = i.mkRType(full)
+		ms[3] = i.mkRV(&rvBox{t: full, v: fn})
+		ms[4] = i.mkInt(int64(idx))
+		return ms
+	}
+	tm("MethodByName", func(i *Interp, t types.Type, a []value) value {
+		name := i.concreteStr(a[0], "reflect.Type.MethodByName")
+		for k, sel := range i.exportedMethods(t) {
+			if sel.Obj().Name() == name {
+				return tuple{methodStruct(i, t, sel, k), i.ctx.True}
+			}
+		}
+		return tuple{i.zero(i.lookupType("reflect", "Method")), i.ctx.False}
+	})
+	tm("Method", func(i *Interp, t types.Type, a []value) value {
+		ms := i.exportedMethods(t)
+		k := int(i.asInt(a[0], true, "reflect.Type.Method"))
+		if k < 0 || k >= len(ms) {
+			panic(targetPanic{i.newError(Str{s: "reflect: Method index out of range"}, nil)})
+		}
+		return methodStruct(i, t, ms[k], k)
+	})
 	tm("NumIn", func(i *Interp, t types.Type, a []value) value {
 		return i.mkInt(int64(t.Underlying().(*types.Signature).Params().Len()))
 	})
